@@ -266,6 +266,21 @@ func locateEnc(t reflect.Type, v reflect.Value, ref, act *oracle.Node, chain []s
 					return nil
 				}
 			}
+			// a string under the ",string" option is a quoted JSON string: both contents are
+			// string literals themselves, and two spellings of one string (\b vs \u0008, which the
+			// reference's own versions differ on) are the same token there
+			if t != nil {
+				bt := t
+				for bt.Kind() == reflect.Ptr {
+					bt = bt.Elem()
+				}
+				if bt.Kind() == reflect.String {
+					var a, b string
+					if stdjson.Unmarshal([]byte(ref.Str), &a) == nil && stdjson.Unmarshal([]byte(act.Str), &b) == nil && a == b && oracle.Recognise([]byte(act.Str), 0) {
+						return nil
+					}
+				}
+			}
 			return &locRes{"token:string-content", ctxOf(chain)}
 		}
 		return nil
